@@ -318,21 +318,30 @@ def check(prop, tier, obligations, level="model_checking", seed=0, extra_assumpt
                             if not any(k["id"] == q["label"] and k.get("status") == "known" for k in known):
                                 kf = None
                         nrep = replayed.get(key, 0)
-                        if nrep >= max_replays:
+                        if nrep >= ob.get("max_replays", max_replays):
                             continue
                         replayed[key] = nrep + 1
                         vals = rp.build_values(r.get("nondets") or [], q.get("model") or {})
                         has_picks = any(nd["Kind"] in ("pick", "rand") for nd in (r.get("nondets") or []))
                         rdir = os.path.join(VERIF, "replays", prop, "%s-%s-%d" % (ob["name"], hashlib.sha1(q["label"].encode()).hexdigest()[:8], nrep))
                         shared = q["label"].startswith("no-write-to-package-level-state")
-                        if shared:
+                        ras = ob.get("replay_as")
+                        if ras:
+                            # kernel candidate: confirmed through the public API only - the Layout-level harness of the property runs natively
+                            # on the same edge list (repeated: map order / RNG differ between runs); any failed assertion there reproduces it
+                            rc = {k: v for k, v in r["consts"].items() if re.match(r"^(M|ef\[|et\[)", k)}
+                            rc.update(ras["consts"])
+                            res = rp.replay(ras["pkg"], ras["func"], rc, {}, repeat=ras.get("repeat", 400), timeout=ob.get("replay_timeout", 300), keep_dir=rdir)
+                        elif shared:
                             res = rp.replay_race(ob["pkg"], r["consts"], vals, keep_dir=rdir)
                         else:
                             res = rp.replay(ob["pkg"], ob["func"], r["consts"], vals, repeat=(ob.get("replay_repeat", 400) if has_picks else 1),
                                             timeout=ob.get("replay_timeout", 120), keep_dir=rdir)
                         tot["replays"] += 1
                         reproduced = False
-                        if shared:
+                        if ras:
+                            reproduced = bool(res["failed"]) or res["outcome"] in ("panic", "crash")
+                        elif shared:
                             reproduced = res["outcome"] == "race"
                         elif q["kind"] in ("assert", "known"):
                             reproduced = q["label"] in res["failed"] or q["label"] in res["known"]
@@ -344,6 +353,8 @@ def check(prop, tier, obligations, level="model_checking", seed=0, extra_assumpt
                             reproduced = res["outcome"] != "clean"
                         meta = dict(property=prop, obligation=ob["name"], pkg=ob["pkg"], func=ob["func"], kind=q["kind"], label=q["label"],
                                     consts=r["consts"], values=vals, native=dict((k, v) for k, v in res.items() if k != "raw"), reproduced=reproduced)
+                        if ras:
+                            meta.update(pkg=ras["pkg"], func=ras["func"], consts=rc, values={}, kernel=dict(pkg=ob["pkg"], func=ob["func"], consts=r["consts"], values=vals))
                         os.makedirs(rdir, exist_ok=True)
                         json.dump(meta, open(os.path.join(rdir, "meta.json"), "w"), indent=1)
                         if reproduced:
